@@ -25,7 +25,12 @@ FIELDS = [('p', 2), ('p', 3), ('x', 2, 'x^2+x+1'), ('p', 5), ('p', 7), ('x', 2, 
 
 def shards(tier, seed):
     lim = 3000 if tier == 'quick' else 20000
-    return [{'name': f'field-{i}', 'field': list(f), 'limit': lim} for i, f in enumerate(FIELDS)]
+    out = [{'name': f'field-{i}', 'field': list(f), 'limit': lim} for i, f in enumerate(FIELDS)]
+    # the dealings the runtime actually makes (threshold in force at the time of the dealing, also after it was changed at run time):
+    # dealing monitor of C14 - a dealt polynomial of degree below the threshold in force means fewer than t+1 shares determine the secret
+    for cfg in ((3, 0, True), (5, 1, True), (3, 1, True), (5, 2, False)):
+        out.append({'name': f'runtime-m{cfg[0]}t{cfg[1]}{"np" if cfg[2] else "prss"}', 'kind': 'runtime', 'cfg': list(cfg), 'programs': 24 if tier == 'quick' else 120})
+    return out
 
 
 class Tape:
@@ -60,6 +65,10 @@ class Tape:
 
 
 def run(shard, rec):
+    if shard.get('kind') == 'runtime':
+        from checks import c14
+        rec.count('runtime_dealing_shards')
+        return c14.run(shard, rec)
     from vlib import env
     env.prepare()
     from mpyc import thresha
